@@ -234,9 +234,21 @@ def carry(cfg):
     return path
 
 
+_DOC_CACHE = {}
+
+
 def build_config(cfg):
+    """Config(...) from the scenario's carrier.  With cfg["share_document"] (dict / odict
+    carriers) every Config of the scenario is built from the *same* document object, as a
+    caller holding one dict would do - so anything parsing writes into it is seen by the next."""
     from ioos_qc.config import Config
 
+    if cfg.get("share_document") and cfg.get("carrier", "dict") in ("dict", "odict"):
+        key = id(cfg)
+        if key not in _DOC_CACHE or _DOC_CACHE[key][0] is not cfg:
+            _DOC_CACHE.clear()
+            _DOC_CACHE[key] = (cfg, carry(cfg))
+        return Config(_DOC_CACHE[key][1])
     return Config(carry(cfg))
 
 
